@@ -538,7 +538,7 @@ def encode_outcome(rng, place):
 ODD_NAMES = [
     "Zoe\u0308", "A\u030angstro\u0308m", "\u212b", "\u1100\u1161\u11a8", "\ufb01nal", "  padded  ", "O'Brien; DROP TABLE", "x" * 300,
     "\u00e9clair", "\U0001f3b2 dice", "tab\tname", "0", "None", "\u0130stanbul", "stra\u00dfe", "\u01c4",
-    "lone\ud800surrogate", "nul\x00byte", "\u200bzero width", "\u202eright-to-left", "   ", "\n",
+    "lone\ud800surrogate", "nul\x00byte", "\u200bzero width", "\u202eright-to-left", "   ", "\n", "",
 ]
 
 
@@ -599,12 +599,15 @@ def gen_population(rng, cfg, n, style):
 
 
 def gen_match(rng, names, league, shape_max=(4, 3), maker="random", avoid=None):
-    """Pick disjoint teams from `names`. Returns list of lists of names (>= 2 teams)."""
+    """Pick disjoint teams from `names`. Returns list of lists of names (>= 2 teams).
+    shape_max = (most teams, most players per team[, fewest teams])."""
     pool = [n for n in names if not avoid or n not in avoid]
     k_max = min(shape_max[0], len(pool))
     if k_max < 2:
         return None
     k = 2 if rng.random() < 0.45 else rng.randint(2, k_max)
+    if len(shape_max) > 2:
+        k = max(k, min(shape_max[2], k_max))
     m_max = max(1, min(shape_max[1], len(pool) // k))
     sizes = [1 if rng.random() < 0.4 else rng.randint(1, m_max) for _ in range(k)]
     if rng.random() < 0.5:
